@@ -14,10 +14,20 @@ struct W {
     grid: Grid,
     excl_div0: bool,
     excl_minneg1: bool,
+    builtins: crate::props::c17::BuiltinWorker,
 }
 
 impl WorkerState for W {
     fn run(&mut self, case: &Case, render: bool) -> Outcome {
+        // part (b): the built-in catalogue, survival only
+        if let Some(b) = case.get(1) {
+            if b.first().map(|x| x % 2 == 0).unwrap_or(false) {
+                let sub: Case = vec![b[1..].to_vec()];
+                let mut o = self.builtins.run_case(&sub, render);
+                o.classes.push("part:built-ins".into());
+                return o;
+            }
+        }
         let Some(chunk) = case.first() else { return Outcome::discard("empty case") };
         let Some((op, ty, a, b)) = grid::decode_case(chunk) else {
             return Outcome::discard("operator not applicable to type");
@@ -70,7 +80,7 @@ impl Prop for C10P {
         "C10"
     }
     fn rule(&self) -> String {
-        "operator grid: every unary/binary/compound arithmetic and comparison operator x 8 integer + 2 float types x all pairs from a 15-value boundary set per type (exhaustive), plus random operand pairs; a case is non-trivial when at least one operand is a boundary value; distinct by (operator, type, operands). Oracle: the worker process survives the call.".into()
+        "(a) operator grid: every unary/binary/compound arithmetic and comparison operator x 8 integer + 2 float types x all pairs from a 15-value boundary set per type (exhaustive), plus random operand pairs; a case is non-trivial when at least one operand is a boundary value; distinct by (operator, type, operands). (b) the built-in catalogue of C17 (~85 functions, methods and constants of the default runtime) with the survival domain: indices 0, 1, len-1, len, len+1, u64::MAX, prefix lengths over the whole u8 range, counts 0/1/2/1000, empty and multi-byte strings. Oracle: the worker process survives the call.".into()
     }
     fn assumptions(&self) -> Vec<String> {
         vec![
@@ -85,7 +95,7 @@ impl Prop for C10P {
         }
     }
     fn shape(&self, _tier: Tier) -> CaseShape {
-        CaseShape::streams(&[20])
+        CaseShape::streams(&[20, 120])
     }
     fn fixed_cases(&self, _tier: Tier) -> Vec<Case> {
         grid::enumerate().into_iter().map(|c| vec![c]).collect()
@@ -95,6 +105,7 @@ impl Prop for C10P {
     }
     fn worker(&self, excl: &[String]) -> Box<dyn WorkerState> {
         Box::new(W {
+            builtins: crate::props::c17::BuiltinWorker::new(crate::builtins::Mode::Survive, excl),
             grid: Grid::new(),
             excl_div0: excl.iter().any(|e| e == "C10-F1"),
             excl_minneg1: excl.iter().any(|e| e == "C10-F2"),
